@@ -90,6 +90,16 @@ def register_format(cls: Callable) -> Callable:
     return cls
 
 
+def _jd_day(jd1: np_float, jd2: np_float) -> np_float:
+    """Half-integer Julian day containing the epoch jd1 + jd2
+
+    The sum jd1 + jd2 rounded to one float only resolves about 40 microseconds. Close to midnight it can reach the next
+    day, which gave a negative day fraction. The day is therefore found from the two parts separately.
+    """
+    day1 = np.floor(jd1 - 0.5) + 0.5
+    return day1 + np.floor((jd1 - day1) + jd2)
+
+
 def _find_conversion_hops(cls: str, hop: Tuple[str, str]) -> List[Tuple[str, str]]:
     """Calculate the hops needed to convert between scales using breadth first search"""
     start_scale, target_scale = hop
@@ -689,7 +699,7 @@ class TimeArray(TimeBase):
         Returns:
             Numpy-float scalar or array with difference between `jd1` and the integer part of Julian Day.
         """
-        return self.jd1 - (np.floor(self.jd - 0.5) + 0.5)
+        return self.jd1 - _jd_day(self.jd1, self.jd2)
 
     @property
     @lru_cache()
@@ -1260,7 +1270,7 @@ class TimeGPSWeekSec(TimeFormat):
             raise ValueError(f"Julian Day exceeds the GPS time start date of 6-Jan-1980 (JD {cls._jd19800106})")
 
         # See Time.jd_int for explanation
-        _delta = jd1 - (np.floor(jd1 + jd2 - 0.5) + 0.5)
+        _delta = jd1 - _jd_day(jd1, jd2)
         jd_int = jd1 - _delta
         jd_frac = jd2 + _delta
 
@@ -1303,7 +1313,7 @@ class TimeGPSSec(TimeFormat):
             raise ValueError(f"Julian Day exceeds the GPS time start date of 6-Jan-1980 (JD {cls._jd19800106})")
 
         # See Time.jd_int for explanation
-        _delta = jd1 - (np.floor(jd1 + jd2 - 0.5) + 0.5)
+        _delta = jd1 - _jd_day(jd1, jd2)
         days_int = jd1 - _delta - cls._jd19800106
         days_frac = jd2 + _delta
 
